@@ -54,7 +54,7 @@ func (b *builder) variant(base gen.MsgSpec) (gen.MsgSpec, string) {
 	var what []string
 	ops := b.r.Range(1, 3)
 	for ; ops > 0; ops-- {
-		switch b.r.Intn(8) {
+		switch b.r.Intn(9) {
 		case 0: // insert other headers
 			for k := b.r.Range(1, 3); k > 0; k-- {
 				p := b.r.Intn(len(m.Hdrs) + 1)
@@ -145,6 +145,19 @@ func (b *builder) variant(base gen.MsgSpec) (gen.MsgSpec, string) {
 			if i := m.FirstOf("via"); i >= 0 && !strings.Contains(m.Hdrs[i].Val, ",") {
 				m.Hdrs[i].Val += b.r.Pick([]string{",", ", ", " ,"}) + "SIP/2.0/UDP " + b.g.Host() + ";branch=z9hG4bK" + strconv.Itoa(b.r.Intn(1<<30)) + b.r.Pick([]string{"", ";rport", "-x.y_z"})
 				what = append(what, "via-list")
+			}
+		case 8: // other parameters of the first via change (also quoted ones holding delimiters); its branch stays
+			if i := m.FirstOf("via"); i >= 0 {
+				v := m.Hdrs[i].Val
+				first := v
+				if c := strings.IndexByte(v, ','); c >= 0 && !strings.Contains(v[:c], "\"") {
+					first = v[:c]
+				}
+				if bi := strings.Index(first, ";branch="); bi >= 0 && !strings.Contains(first, "\"") {
+					ins := b.r.Pick([]string{";x=\"a,b\"", ";y=\"p;q\"", ";rport", ";ttl=1", ";z=\"\\\"\""})
+					m.Hdrs[i].Val = v[:bi] + ins + v[bi:]
+					what = append(what, "via-params")
+				}
 			}
 		case 5: // whitespace / folding around values, other terminators
 			for i := range m.Hdrs {
